@@ -295,7 +295,13 @@ func checkReuseBeforeGrow(p *Program, r *Result) {
 	fname := funcName(fn)
 	// append(it.chunkSlots, ...) dominated by an If on the "found a free slot" result
 	found := false
-	for _, in := range instrsOf(fn) {
+	var all []ssa.Instruction
+	for _, m := range methodsOf(p, pkgMcap, "indexedMessageIterator") {
+		if m.Blocks != nil {
+			all = append(all, instrsOf(m)...)
+		}
+	}
+	for _, in := range all {
 		c, ok := in.(*ssa.Call)
 		if !ok {
 			continue
@@ -314,6 +320,7 @@ func checkReuseBeforeGrow(p *Program, r *Result) {
 				}
 			}
 		}
+		fname := funcName(c.Parent())
 		if guarded {
 			r.held("C20.c", fname, "new slot only when none is free", p.pos(c.Pos()), "append(it.chunkSlots, …) is guarded by the failed search for a slot with unreadMessages == 0")
 		} else {
@@ -324,11 +331,22 @@ func checkReuseBeforeGrow(p *Program, r *Result) {
 		r.undecided("C20.c", fname, "slot allocation", p.pos(fn.Pos()), "no append to it.chunkSlots found")
 	}
 	// slot buffer: allocation guarded by a capacity test
-	for _, name := range []struct{ fn, tn, f string }{{"indexedMessageIterator.loadChunk", "chunkSlot", "buf"}, {"loadChunk", "Lexer", "uncompressedChunk"}} {
-		f := p.lookupFunc(pkgMcap, name.fn)
-		if f == nil {
-			continue
+	type bufSite struct {
+		f      *ssa.Function
+		tn, fl string
+	}
+	var sites []bufSite
+	for _, m := range methodsOf(p, pkgMcap, "indexedMessageIterator") {
+		if m.Blocks != nil {
+			sites = append(sites, bufSite{m, "chunkSlot", "buf"})
 		}
+	}
+	if lf := p.lookupFunc(pkgMcap, "loadChunk"); lf != nil {
+		sites = append(sites, bufSite{lf, "Lexer", "uncompressedChunk"})
+	}
+	for _, site := range sites {
+		f := site.f
+		name := struct{ tn, f string }{site.tn, site.fl}
 		for _, st := range fieldStores(f, name.tn, name.f) {
 			oc := &originCtx{p: p}
 			org := oc.origins(st.Val)
@@ -388,6 +406,43 @@ func dependsOnUnreadScan(v ssa.Value, seen map[ssa.Value]bool) bool {
 		}
 	case *ssa.UnOp:
 		return dependsOnUnreadScan(x.X, seen)
+	case *ssa.Extract:
+		return dependsOnUnreadScan(x.Tuple, seen)
+	case *ssa.Call:
+		// a search helper (repo function, or a library search given a predicate closure) that tests unreadMessages
+		if f := x.Call.StaticCallee(); f != nil && testsUnread(f, 0) {
+			return true
+		}
+		for _, a := range x.Call.Args {
+			if cl := closureOf(a); cl != nil && testsUnread(cl, 0) {
+				return true
+			}
+		}
+	}
+	return false
+}
+
+// testsUnread: the function (or a repo function it calls) compares chunkSlot.unreadMessages with something.
+func testsUnread(f *ssa.Function, depth int) bool {
+	if f == nil || f.Blocks == nil || depth > 2 {
+		return false
+	}
+	for _, in := range instrsOf(f) {
+		switch x := in.(type) {
+		case *ssa.BinOp:
+			if loadOfField(x.X, "chunkSlot", "unreadMessages") || loadOfField(x.Y, "chunkSlot", "unreadMessages") {
+				return true
+			}
+		case *ssa.Call:
+			if g := x.Call.StaticCallee(); g != nil && g != f && g.Pkg != nil && g.Pkg.Pkg.Path() == pkgMcap && testsUnread(g, depth+1) {
+				return true
+			}
+			for _, a := range x.Call.Args {
+				if cl := closureOf(a); cl != nil && testsUnread(cl, depth+1) {
+					return true
+				}
+			}
+		}
 	}
 	return false
 }
